@@ -146,10 +146,8 @@ func (req *OnRequest) DoesHeaderValueMatch(headerName, headerValue string) bool 
 func (req *OnRequest) queryValues() (url.Values, bool) {
 	if err := req.init(); err != nil {
 		log.Error().Err(err).Msgf("failed to initialize request: %s", req.ID)
-		values, queryErr := url.ParseQuery(req.Query)
-		if queryErr != nil {
-			return nil, false
-		}
+		// like URL.Query() on the ordinary path: the pairs that decode are kept
+		values, _ := url.ParseQuery(req.Query)
 		return values, true
 	}
 	return req.ParsedURL.Query(), true
